@@ -96,6 +96,21 @@ func (c LabelCheck) checkRecordingRule(entry discovery.Entry) (problems []Proble
 
 	val := entryLabels.GetValue(c.keyRe.original)
 	if val == nil || val.Value == "" {
+		if c.isRequired && entry.Rule.RecordingRule.Labels == nil {
+			// Only group level labels are set, there is no labels block on the rule to point at.
+			problems = append(problems, Problem{
+				Anchor:   AnchorAfter,
+				Lines:    entry.Rule.Lines,
+				Reporter: c.Reporter(),
+				Summary:  "required label not set",
+				Details:  maybeComment(c.comment),
+				Severity: c.severity,
+				Diagnostics: []diags.Diagnostic{
+					WholeRuleDiag(entry.Rule, fmt.Sprintf("`%s` label is required.", c.keyRe.original)),
+				},
+			})
+			return problems
+		}
 		if c.isRequired {
 			problems = append(problems, Problem{
 				Anchor:   AnchorAfter,
